@@ -3,4 +3,4 @@
 cd /verif
 ./harness/constx/constx /repo coq/Model/Consts.v build/consts.json >/dev/null 2>&1
 ./harness/chainx/chainx /repo coq/Model/Chains.v
-./harness/gox/gox /repo coq/Model/GoFns.v coq/Model/SrcText.v build/srctext.json coq/Model/GoData.v coq/Model/GoGrad.v
+./harness/gox/gox /repo coq/Model/GoFns.v coq/Model/SrcText.v build/srctext.json coq/Model/GoData.v coq/Model/GoGrad.v coq/Model/GoWrap.v coq/Model/GoComp.v
